@@ -144,6 +144,11 @@ func underScheduler(plan []int, f func()) (hang string) {
 					return
 				default:
 				}
+				if g := sch.takeWoken(); g != nil {
+					idle = 0
+					close(g.ch)
+					continue
+				}
 				if g := sch.take(sch.next()); g != nil {
 					idle = 0
 					close(g.ch)
